@@ -1487,6 +1487,11 @@ class Evaluator:
                 and self.loops[it[3][0][0]].kind == "comp":
             lid, base, conds = it[3][0]
             value, it = it[2], base
+        # ... and the generator's own source may again be cut short: for x in (f(v) for v in takewhile(q, ys)) -- q is tested on v
+        preds_in = []
+        while value is not None and it[0] == "call" and it[1] == ("ext", "itertools.takewhile") and len(it[2]) == 2 and not it[3]:
+            preds_in.append(it[2][0])
+            it = it[2][1]
         if lid is None:
             lid = self.fresh("L")
         assigned = self._assigned_names(st.body)
@@ -1528,7 +1533,12 @@ class Evaluator:
             live_in = AND(*[c_ for c_ in conjuncts(live) if c_ not in implied])
         else:
             live_in = live
-        inner = AND(live_in, ("inloop", lid), *conds)
+        inner = AND(live_in, ("inloop", lid))
+        for p in reversed(preds_in):
+            c = self._fold_records(fold_sub(self._apply_fn(p, [("elem", lid)])))
+            self.emit("break", AND(inner, NOT(c)), NONE, st)
+            inner = AND(inner, c)
+        inner = AND(inner, *conds)
         for p in reversed(preds):
             c = self._fold_records(fold_sub(self._apply_fn(p, [elem_v])))
             self.emit("break", AND(inner, NOT(c)), NONE, st)
@@ -2960,28 +2970,10 @@ class Evaluator:
                             and isinstance(st_.value.value, str):
                         return ("const", st_.value.value)
         # ":".join(["a", str(x), str(y)]) over a display of constants and str(...) items is the f-string f"a:{x}:{y}"
-        if f[0] == "attr" and f[2] == "join" and f[1][0] == "const" and isinstance(f[1][1], str) and plain and len(args) == 1 \
-                and args[0][0] in ("list", "tuple") and args[0][1] and all(
-                    (x[0] == "const" and isinstance(x[1], str)) or (x[0] == "call" and x[1] == ("builtin", "str") and len(x[2]) == 1 and not x[3])
-                    or x[0] == "fstr" for x in args[0][1]):
-            parts = []
-
-            def push(x):
-                if x[0] == "const" and parts and parts[-1][0] == "const":
-                    parts[-1] = ("const", parts[-1][1] + x[1])
-                elif not (x[0] == "const" and x[1] == ""):
-                    parts.append(x)
-            for k_, x in enumerate(args[0][1]):
-                if k_:
-                    push(("const", f[1][1]))
-                if x[0] == "const":
-                    push(x)
-                elif x[0] == "fstr":
-                    for y in x[1]:
-                        push(y)
-                else:
-                    push(x[2][0])
-            return ("fstr", tuple(parts))
+        if f[0] == "attr" and f[2] == "join" and f[1][0] == "const" and isinstance(f[1][1], str) and plain and len(args) == 1:
+            v_ = _join_as_fstr(f[1][1], args[0])
+            if v_ is not None:
+                return v_
         return None
 
     @staticmethod
@@ -4201,6 +4193,31 @@ def _shapely_method_form(f, args):
     return None
 
 
+def _join_as_fstr(sep, seq):
+    if not (seq[0] in ("list", "tuple") and seq[1] and all(
+            (x[0] == "const" and isinstance(x[1], str)) or (x[0] == "call" and x[1] == ("builtin", "str") and len(x[2]) == 1 and not x[3])
+            or x[0] == "fstr" for x in seq[1])):
+        return None
+    parts = []
+
+    def push(x):
+        if x[0] == "const" and parts and parts[-1][0] == "const":
+            parts[-1] = ("const", parts[-1][1] + x[1])
+        elif not (x[0] == "const" and x[1] == ""):
+            parts.append(x)
+    for k_, x in enumerate(seq[1]):
+        if k_:
+            push(("const", sep))
+        if x[0] == "const":
+            push(x)
+        elif x[0] == "fstr":
+            for y in x[1]:
+                push(y)
+        else:
+            push(x[2][0])
+    return ("fstr", tuple(parts))
+
+
 NO_MATCH = ("global", "<no match>", "sentinel")  # the default of the next(...) a search helper is read as: equal to nothing else
 
 
@@ -4285,6 +4302,9 @@ def fold_sub(t):
         t = _splice_stars(t)
     if t and t[0] == "bin" and t[1] == "+" and t[2][0] == "list" and t[3][0] == "list":
         return ("list", t[2][1] + t[3][1])  # [a] + [b] is [a, b]
+    if t and t[0] == "call" and t[1][0] == "attr" and t[1][2] == "join" and t[1][1][0] == "const" and isinstance(t[1][1][1], str) \
+            and len(t[2]) == 1 and not t[3] and _join_as_fstr(t[1][1][1], t[2][0]) is not None:
+        return _join_as_fstr(t[1][1][1], t[2][0])  # the display became explicit through a substitution
     if t and t[0] == "call" and t[1][0] == "ext" and not t[3] and _shapely_method_form(t[1], t[2]) is not None:
         return _shapely_method_form(t[1], t[2])  # (a function picked from a table and applied: the same normal form as in a direct call)
     if t and t[0] in ("and", "or") and len(t) == 2 and any(x in (TRUE, FALSE) for x in t[1]):
